@@ -75,8 +75,6 @@ open FloatOps in
 the evidence); for `Rat` they are proved in `FrappyProofs/Lemmas/RatLawful.lean`. -/
 class LawfulFloatOps (F : Type) [FloatOps F] : Prop where
   same_iff : ∀ x y : F, same x y = true ↔ x = y
-  /-- a comparison that holds has no NaN operand -/
-  le_notNaN : ∀ x y : F, le x y = true → isNaN x = false ∧ isNaN y = false
   le_refl : ∀ x : F, isNaN x = false → le x x = true
   le_total : ∀ x y : F, isNaN x = false → isNaN y = false → le x y = true ∨ le y x = true
   le_trans : ∀ x y z : F, le x y = true → le y z = true → le x z = true
@@ -85,9 +83,7 @@ class LawfulFloatOps (F : Type) [FloatOps F] : Prop where
   maxFinite_notNaN : isNaN (maxFinite : F) = false
   neg_maxFinite_notNaN : isNaN (neg (maxFinite : F)) = false
   neg_max_le_max : le (neg (maxFinite : F)) maxFinite = true
-  /-- `x + 0.0` does not change what `x` is compared to, rounded to, or whether it is NaN, and is idempotent -/
-  isNaN_addZero : ∀ x : F, isNaN (addZero x) = isNaN x
-  addZero_idem : ∀ x : F, addZero (addZero x) = addZero x
+  /-- `x + 0.0` does not change what `x` rounds to or is equal to -/
   round_addZero : ∀ x : F, round (addZero x) = round x
   feq_addZero : ∀ x y : F, feq y (addZero x) = feq y x
   /-- int → float conversion is monotone -/
